@@ -33,6 +33,14 @@ def grid(name, tier):
             if label in ('base', 'default', 'default-s256') or label[:-1] in ('B', 'b', 'quad', 'L', 'ratio', 's', 'dict', 'max', 'id') or label in ('key0', 'l2', 'nx0'):
                 keep.append((label, cfg))
         pts = keep
+    if name == 'CJJ14.Pi2Lev':
+        # configurations on the wrong side of the scheme's own pointer-size guard ((B*id)//B' == (b*id)//b'): refused at
+        # construction on a correct tree ("setup-raises", nothing to compare) - if one is ever accepted, the shape rule applies to it
+        for i, q in enumerate([dict(param_B=8, param_B_prime=8, param_b=4, param_b_prime=8, param_identifier_size=8),
+                               dict(param_B=4, param_B_prime=2, param_b=2, param_b_prime=2, param_identifier_size=4),
+                               dict(param_B=2, param_B_prime=4, param_b=4, param_b_prime=2, param_identifier_size=8),
+                               dict(param_B=8, param_B_prime=2, param_b=8, param_b_prime=8, param_identifier_size=2)]):
+            pts = pts + [('guard%d' % i, sse.base_cfg(name, **q))]
     return pts
 
 
@@ -46,6 +54,7 @@ def profile_list(name, cfg, tier, label=''):
             ps.append([v])
             ps.append([1] * v)
             ps.append([v - 2, 1, 1] if v > 3 else [v])
+    ps += [[0, 3], [3, 0], [0, 1, 2], [2, 0, 1], [0, 0, 3], [1, 1, 1]]          # keywords with an empty posting list (refused by some schemes)
     if label in ('base', 'default', 'default-s256'):
         # the same N in very different distributions, at a scale where buffers, pools and levels are no longer tiny
         big = [600, 1025] if name not in ('CGKO06.SSE1', 'CGKO06.SSE2') else [100]
